@@ -5,6 +5,7 @@ import ast
 
 from ..cfg import CFG, always_raises
 from ..core import AnalysisError, calls_in, call_name, dotted, unparse, walk_no_nested
+from ..match import canon
 from ..match import Field, alias_root, const_int, field_of, inline, pack_call, packed_bytes, single_assignments
 from ..report import Ctx
 
@@ -81,7 +82,11 @@ def r2_tiling_loop(ctx: Ctx) -> None:
     fn = ctx.repo.func(W, "IPSWriter.write_block")
     blk, addr = fn.params()[1], fn.params()[2]
     g = CFG(fn.node)
-    loops = [s for s in walk_no_nested(fn.node) if isinstance(s, ast.While)]
+    floops = [s for s in walk_no_nested(fn.node) if isinstance(s, ast.For)]
+    wloops = [s for s in walk_no_nested(fn.node) if isinstance(s, ast.While)]
+    if len(floops) == 1 and not wloops:
+        return _tiling_by_range(ctx, fn, floops[0], blk, addr)
+    loops = wloops
     if len(loops) != 1:
         raise AnalysisError("write_block: expected one loop")
     lp = loops[0]
@@ -153,6 +158,38 @@ def r2_tiling_loop(ctx: Ctx) -> None:
     for s in walk_no_nested(lp):
         if isinstance(s, (ast.Continue, ast.Return)):
             ctx.fail(f"write_block:{type(s).__name__.lower()}", "an early exit leaves part of the block unwritten")
+    ctx.count("tiling_facts", 8)
+
+
+def _tiling_by_range(ctx: Ctx, fn, lp: ast.For, blk: str, addr: str) -> None:
+    """`for k in range(0, len(block), C)`: slice block[k:k+C] written at address + k"""
+    it = lp.iter
+    if not (isinstance(it, ast.Call) and call_name(it) == "range" and len(it.args) == 3 and const_int(it.args[0]) == 0 and unparse(it.args[1]) == f"len({blk})"
+            and isinstance(lp.target, ast.Name)):
+        raise AnalysisError(f"write_block: loop over `{unparse(it)}` not modelled")
+    k = lp.target.id
+    step = const_int(it.args[2])
+    ctx.ok("write_block:guard", "one record per range step: nothing is written for an empty block")
+    ctx.check(step is not None and 1 <= step <= 0xFFFF, "write_block:slice-bound", f"record length bound {step} must fit the 16-bit length field (1..0xFFFF)")
+    hdr = [c for c in calls_in(lp) if call_name(c) == "self.write_block_header"]
+    dat = [c for c in calls_in(lp) if call_name(c) == "self.file.write"]
+    if len(hdr) != 1 or len(dat) != 1:
+        ctx.fail("write_block:header-call", f"one header and one data write per slice; found {len(hdr)} / {len(dat)}")
+        return
+    sl = canon(fn.node, hdr[0].args[0])
+    ctx.check(sl in (f"{blk}[{k}:{k} + {step}]", f"{blk}[{k}:{k} + {hex(step) if step else ''}]") or (step is not None and sl == f"{blk}[{k}:{k} + {step}]"), "write_block:slice", f"the slice is {blk}[{k}:{k}+step]; found {sl}")
+    from ..poly import poly, poly_of_source, show as show_poly
+    a = canon(fn.node, hdr[0].args[1])
+    ctx.check(show_poly(poly(ast.parse(a, mode="eval").body)) == show_poly(poly_of_source(f"{addr} + {k}")), "write_block:header-call", f"the slice at offset k is recorded at address + k; found {a}")
+    ctx.check(canon(fn.node, dat[0].args[0]) == sl, "write_block:data-write", "exactly the slice follows its header")
+    g = CFG(fn.node)
+    hn, dn = g.node_containing(hdr[0]), g.node_containing(dat[0])
+    ctx.check(g.dominated_by(dn, [hn]) and not g.path_conditions(hn, fn.node) and not g.path_conditions(dn, fn.node), "write_block:order", "each header is followed by its data, unconditionally")
+    writes_addr = [n for n in walk_no_nested(fn.node) if isinstance(n, (ast.Assign, ast.AugAssign)) and addr in {unparse(t) for t in (n.targets if isinstance(n, ast.Assign) else [n.target])}]
+    ctx.check(not writes_addr, "write_block:advance", "the block address itself is not modified (each record uses address + k)")
+    for s_ in walk_no_nested(lp):
+        if isinstance(s_, (ast.Break, ast.Continue, ast.Return)):
+            ctx.fail(f"write_block:{type(s_).__name__.lower()}", "an early exit leaves part of the block unwritten")
     ctx.count("tiling_facts", 8)
 
 
